@@ -383,6 +383,10 @@ func (e *env) run(st Step) (res Result) {
 		for i := 0; i < 64; i++ {
 			buf.WriteByte(byte(0x5A + i))
 		}
+	case "overwrite":
+		// the unread bytes of the buffer are overwritten in place (same memory, same length)
+		raw, _ := hex.DecodeString(st.Hex)
+		copy(e.bufs[st.Buf].Bytes(), raw)
 	case "mutate":
 		mutate(reflect.ValueOf(e.msgs[st.Msg]))
 	case "calc":
